@@ -1549,16 +1549,27 @@ func (fc *FuncCtx) bindLoopVars(fr *Frame, li *loopInfo, st *State, env *Env) {
 		env.local = func(name string) (SVal, bool) { return fc.lookupLocalAt(fr, st, name, at) }
 		fc.setOldLocal(fr, env)
 	}
-	// visited(k): the ghost visited set of the map iteration of this loop
-	for _, ins := range li.header.Instrs {
-		if nx, ok := ins.(*ssa.Next); ok {
-			if r, ok := nx.Iter.(*ssa.Range); ok {
-				if _, ok := r.X.Type().Underlying().(*types.Map); ok {
-					env.vars["$vis"] = SVal{T: st.H(fc.p, iterHeapName(r))}
-					// $i of a map range: the number of keys produced so far
-					env.vars["$i"] = SVal{T: st.H(fc.p, iterHeapName(r)+"#n"), Typ: tInt}
-					if _, has := st.heap[iterHeapName(r)+"#sum"]; has {
-						env.vars["$isum"] = SVal{T: st.H(fc.p, iterHeapName(r)+"#sum"), Typ: tInt}
+	// visited(k): the ghost visited set of the map iteration of this loop;
+	// visited<n>(k): the same for the map-range loop with ordinal n (for the invariants of a loop nested in it)
+	for _, l := range fr.loops {
+		if l.header == nil {
+			continue
+		}
+		for _, ins := range l.header.Instrs {
+			if nx, ok := ins.(*ssa.Next); ok {
+				if r, ok := nx.Iter.(*ssa.Range); ok {
+					if _, ok := r.X.Type().Underlying().(*types.Map); ok {
+						if l == li {
+							env.vars["$vis"] = SVal{T: st.H(fc.p, iterHeapName(r))}
+							// $i of a map range: the number of keys produced so far
+							env.vars["$i"] = SVal{T: st.H(fc.p, iterHeapName(r)+"#n"), Typ: tInt}
+							if _, has := st.heap[iterHeapName(r)+"#sum"]; has {
+								env.vars["$isum"] = SVal{T: st.H(fc.p, iterHeapName(r)+"#sum"), Typ: tInt}
+							}
+						} else if _, started := st.heap[iterHeapName(r)]; started {
+							// only once that iteration has begun on this path (its ghost set exists)
+							env.vars[fmt.Sprintf("$vis%d", l.ordinal)] = SVal{T: st.H(fc.p, iterHeapName(r))}
+						}
 					}
 				}
 			}
